@@ -201,6 +201,7 @@ def check_getitem(idx: ProgramIndex, rep: Report):
     swaps_seen = set()
     for p in paths:
         ue = UnitsEval(sn)
+        batch_names: Set[str] = set()
         path_site: List[str] = []
         # role assignment from the interleaved swap
         pos: Dict[str, int] = {}
@@ -230,18 +231,23 @@ def check_getitem(idx: ProgramIndex, rep: Report):
             if isinstance(st, ast.Assign) and len(st.targets) == 1:
                 tg = st.targets[0]
                 if isinstance(tg, ast.Name):
+                    # roles come from the layout, not from names: flat index = slow * (size of fast) + fast, where the slow
+                    # ("row") dimension is the data dimension (-2) when interleaved and the task dimension (-1) otherwise
                     pp = _subscript_pos(st.value, ixn)
-                    if pp is not None and tg.id in ("row_idx", "col_idx"):
-                        pos[tg.id] = pp
-                        ue.env[tg.id] = U("ROW" if tg.id == "row_idx" else "COL", norm=False)
+                    if pp in (-1, -2) and layout is not None:
+                        role = "row_idx" if (pp == -2) == bool(layout) else "col_idx"
+                        pos[role] = pp
+                        ue.env[tg.id] = U("ROW" if role == "row_idx" else "COL", norm=False)
                         continue
                     sp = _subscript_pos(st.value, "%s._output_shape" % sn)
-                    if sp is not None and tg.id in ("num_rows", "num_cols"):
-                        shape_pos[tg.id] = sp
-                        ue.env[tg.id] = U("NROWS" if tg.id == "num_rows" else "PER_ROW")
+                    if sp in (-1, -2) and layout is not None:
+                        role = "num_rows" if (sp == -2) == bool(layout) else "num_cols"
+                        shape_pos[role] = sp
+                        ue.env[tg.id] = U("NROWS" if role == "num_rows" else "PER_ROW")
                         continue
-                    if tg.id == "batch_idx":
+                    if isinstance(st.value, ast.Subscript) and chain(st.value.value) == ixn and isinstance(st.value.slice, ast.Slice) and st.value.slice.lower is None and src(st.value.slice.upper) == "-2":
                         ue.env[tg.id] = U("BATCH")
+                        batch_names.add(tg.id)
                         continue
                     # refine slices from isinstance assumptions is not needed: kinds are carried by the normalisers
                     v = ue.ev(st.value)
@@ -259,8 +265,8 @@ def check_getitem(idx: ProgramIndex, rep: Report):
             for n in ast.walk(st):
                 if isinstance(n, ast.Subscript) and id(n) not in inner and _is_cov_base(n.value, cov):
                     key = norm(n)
-                    if chain(n.slice) == ixn or src(n.slice) == "batch_idx":
-                        if src(n.slice) == "batch_idx":
+                    if chain(n.slice) == ixn or (isinstance(n.slice, ast.Name) and n.slice.id in batch_names):
+                        if isinstance(n.slice, ast.Name) and n.slice.id in batch_names:
                             path_site.append(key)
                             if not full_slice_path:
                                 ue.err("C11-1", "the covariance is returned un-indexed (`%s`) on a path that is not the full-slice case" % key)
@@ -562,24 +568,77 @@ def check_layout(idx: ProgramIndex, rep: Report):
     t = src(fb.node)
     ok = "BlockInterleavedLinearOperator" in t and "interleaved=False" not in t and "block_dim=task_dim" in t and "task_dim)" in t
     rep.add("C11-3", MOD + ":MultitaskMultivariateNormal.from_batch_mvn", fb.where, ok, "interleaved covariance (BlockInterleaved over task_dim) with the task dimension moved last in the mean" if ok else "from_batch_mvn no longer builds BlockInterleaved over task_dim with the default interleaved flag", {})
-    # to_data_independent_dist stride table
+    # to_data_independent_dist stride table (on inlined expressions: n, t are the last two sizes of self.mean)
+    from ..symbolic import inline, walk_paths
     td = idx.method(cls, "to_data_independent_dist", own=True)
     strides = {}
-    for p in enumerate_paths(body_without_docstring(td.node)):
+    tprobs = []
+
+    def sym(e) -> Optional[str]:
+        """'n' / 't' / 'n*t' / '1' for size expressions built from self.mean.shape[-2:]"""
+        if isinstance(e, ast.Constant) and e.value == 1:
+            return "1"
+        if isinstance(e, ast.BinOp) and isinstance(e.op, ast.Mult):
+            a_, b_ = sym(e.left), sym(e.right)
+            return "n*t" if {a_, b_} == {"n", "t"} else None
+        if isinstance(e, ast.Subscript) and isinstance(e.slice, ast.Constant) and e.slice.value in (0, 1) and "shape" in src(e.value) and chain(e.value.value if isinstance(e.value, ast.Subscript) else e.value) in ("self.mean.shape", "self.loc.shape"):
+            return "n" if e.slice.value == 0 else "t"
+        if isinstance(e, ast.Subscript) and chain(e.value) in ("self.mean.shape", "self.loc.shape") and isinstance(e.slice, ast.UnaryOp) and isinstance(e.slice.operand, ast.Constant):
+            return {2: "n", 1: "t"}.get(e.slice.operand.value)
+        if chain(e) == "self.num_tasks":
+            return "t"
+        return None
+
+    def arange(e):
+        """(stop, step) symbols of a torch.arange expression, looking through view/unsqueeze/to"""
+        while isinstance(e, ast.Call) and isinstance(e.func, ast.Attribute) and e.func.attr in ("view", "unsqueeze", "reshape", "to"):
+            e = e.func.value
+        if isinstance(e, ast.Call) and chain(e.func) == "torch.arange":
+            pos = e.args
+            if len(pos) == 1:
+                return sym(pos[0]), "1"
+            if len(pos) == 2:
+                return sym(pos[1]), "1"
+            if len(pos) >= 3:
+                return sym(pos[1]), sym(pos[2])
+        return None
+
+    def per_point(e) -> bool:
+        return isinstance(e, ast.Call) and isinstance(e.func, ast.Attribute) and e.func.attr in ("view", "reshape") and [src(a_) for a_ in e.args] == ["-1", "1", "1"]
+
+    for path, seq in walk_paths(td):
         lay = None
-        for s in p.steps:
-            if s.kind == "assume" and src(s.node) == "self._interleaved":
-                lay = s.truth
-            if s.kind == "stmt" and isinstance(s.node, ast.Assign) and isinstance(s.node.targets[0], ast.Name) and s.node.targets[0].id in ("data_indices", "task_indices"):
-                for c in calls_in(s.node.value):
-                    if chain(c.func) == "torch.arange":
-                        pos = [src(a) for a in c.args]
-                        stride = pos[2] if len(pos) >= 3 else "1"
-                        strides[(lay, s.node.targets[0].id)] = stride
-    want = {(True, "data_indices"): "num_tasks", (True, "task_indices"): "1", (False, "data_indices"): "1", (False, "task_indices"): "num_data"}
-    ok = strides == want
+        for s_ in path.steps:
+            if s_.kind == "assume":
+                t_, neg = s_.node, False
+                while isinstance(t_, ast.UnaryOp) and isinstance(t_.op, ast.Not):
+                    t_, neg = t_.operand, not neg
+                if chain(t_) == "self._interleaved":
+                    lay = (s_.truth != neg)
+        for st, env in seq:
+            if not (isinstance(st, ast.Return) and st.value is not None):
+                continue
+            r = inline(st.value, env)
+            for sub in (x for x in ast.walk(r) if isinstance(x, ast.Subscript) and isinstance(x.slice, ast.Tuple) and len(x.slice.elts) == 3 and chain(x.value) in ("self.lazy_covariance_matrix", "self._covar")):
+                for axis, e in zip(("rows", "cols"), sub.slice.elts[1:]):
+                    if not (isinstance(e, ast.BinOp) and isinstance(e.op, ast.Add)):
+                        tprobs.append("the %s index is not <point offset> + <task offset>" % axis)
+                        continue
+                    pp, pt = (e.left, e.right) if per_point(e.left) else (e.right, e.left)
+                    if not per_point(pp):
+                        tprobs.append("no per-point offset (.view(-1, 1, 1)) in the %s index" % axis)
+                        continue
+                    ap, at = arange(pp), arange(pt)
+                    strides[(lay, axis)] = (ap, at)
+    want = {True: (("n*t", "t"), ("t", "1")), False: (("n", "1"), ("n*t", "n"))}
+    for lay in (True, False):
+        for axis in ("rows", "cols"):
+            got = strides.get((lay, axis))
+            if got != want[lay]:
+                tprobs.append("interleaved=%s, %s: (point (stop, step), task (stop, step)) = %s, expected %s" % (lay, axis, got, want[lay]))
+    ok = not tprobs
     rep.add("C11-3", MOD + ":MultitaskMultivariateNormal.to_data_independent_dist[strides]", td.where, ok,
-            "point/task strides are (num_tasks, 1) when interleaved and (1, num_data) otherwise" if ok else "stride table of to_data_independent_dist is %s, expected %s" % (strides, want), {"strides": {str(k): v for k, v in strides.items()}})
+            "point/task strides are (num_tasks, 1) when interleaved and (1, num_data) otherwise, on both covariance axes" if ok else "stride table of to_data_independent_dist: %s" % "; ".join(sorted(set(tprobs))[:3]), {"strides": {str(k): str(v) for k, v in strides.items()}})
 
 
 def run(idx: ProgramIndex, rep: Report, tier: str):
